@@ -179,15 +179,21 @@ def install_seams():
 # the world
 
 
+DEFAULT_CFG = {'prs': (1, 2), 'ext': 'sfp', 'reviews': 'ACN', 'target_moves': MAX_TARGET_MOVES, 'prompt_hooks': False}
+
+
 class World:
-    def __init__(self, enforce=False):
+    def __init__(self, enforce=False, cfg=None):
         self.enforce = enforce
+        self.cfg = dict(DEFAULT_CFG, **(cfg or {}))
         self.target = 'T0'
         self.ext_moves = 0
         self.prs = {
-            n: {'head': PR_SHAS[n][0], 'review': 'REVIEW_REQUIRED', 'labels': [], 'state': 'open'} for n in PR_NUMBERS
+            n: {'head': PR_SHAS[n][0], 'review': 'REVIEW_REQUIRED', 'labels': [], 'state': 'open'} for n in self.cfg['prs']
         }
-        self.statuses = {}  # sha -> {context: 'success'|'failure'|'pending'} in order of first report
+        # sha -> {context: 'success'|'failure'|'pending'} in order of first report.  The external check has
+        # already passed on the PRs' initial heads; it is unreported on the shas they can be pushed to.
+        self.statuses = {PR_SHAS[n][0]: {EXT_CONTEXT: 'success'} for n in self.cfg['prs']}
         self.batches = []  # the batch service's table
         self.hooks = []  # undelivered GitHub webhooks, a sorted set of (kind, pr)
         self.callbacks = []  # undelivered batch callbacks (batch ids, FIFO)
@@ -232,9 +238,9 @@ class World:
             tuple((sha, tuple(sorted(d.items()))) for sha, d in sorted(self.statuses.items()) if sha in open_heads),
             tuple((b['id'], tuple(sorted((k, v) for k, v in b['attributes'].items() if k != 'token')), b['state'])
                   for b in self.batches),
-            tuple(self.hooks), tuple(self.callbacks),
+            tuple(self.hooks), len(self.callbacks),  # every callback delivery has the same effect on the CI
             tuple(sorted(self.db['invalidated_batches'])), tuple(sorted(self.db['authorized_shas'])),
-            tuple((m['pr'], m['target_before']) for m in self.merges),
+            (len(self.merges), (self.merges[-1]['pr'], self.merges[-1]['target_before']) if self.merges else None),
         )
 
     # -- helpers
@@ -294,20 +300,25 @@ class World:
         cpr = getattr(self.ci, 'prs', {}).get(n) if self.ci is not None else None
         found = []
 
-        def cause(stale):
-            return 'stale-cache' if stale else 'ci-logic'
+        def cause(stale, hook=None):
+            # ci-logic: the CI's own cached facts already forbade the merge.  Otherwise the cache is out of date:
+            # either the webhook that would have refreshed it is still undelivered, or GitHub never notifies the
+            # CI of such a change (no status / check_run handler is registered) and nothing made it re-poll.
+            if not stale:
+                return 'ci-logic'
+            return 'webhook-in-flight' if hook in self.hooks else 'not-notified'
 
         if p['review'] != 'APPROVED':
             stale = cpr is not None and getattr(cpr, 'review_state', None) == 'approved'
             found.append((
-                f'unapproved/{cause(stale)}',
+                f'unapproved/{cause(stale, ("pull_request_review", n))}',
                 f'PR {n} merged while its review decision is {p["review"]} '
                 f'(CI cache: review_state={getattr(cpr, "review_state", None)!r})',
             ))
         if self.dnm_label in p['labels']:
             stale = cpr is not None and self.dnm_label not in getattr(cpr, 'labels', ())
             found.append((
-                f'do-not-merge-label/{cause(stale)}',
+                f'do-not-merge-label/{cause(stale, ("pull_request", 0))}',
                 f'PR {n} merged while labelled {self.dnm_label!r} (CI cache: labels={sorted(getattr(cpr, "labels", ()))})',
             ))
         bad = {c: s for c, s in self.statuses.get(head, {}).items() if s != 'success'}
@@ -332,7 +343,7 @@ class World:
                 stale = ci_target != target
                 tested = sorted({(b['attributes'].get('target_sha'), b['state']) for b in mine})
                 found.append((
-                    f'target-not-current/{cause(stale)}',
+                    f'target-not-current/{cause(stale, ("push", 0))}',
                     f'PR {n} (head {head}) merged into {BRANCH}@{target} but its test batches ran against {tested} '
                     f'(CI cache: target sha={ci_target!r})',
                 ))
@@ -340,7 +351,7 @@ class World:
                     prev = self.merges[-1]
                     if any(b['attributes'].get('target_sha') == prev['target_before'] and b['state'] == 'success' for b in mine):
                         found.append((
-                            f'two-merges-one-target-update/{cause(stale)}',
+                            f'two-merges-one-target-update/{cause(stale, ("push", 0))}',
                             f'PR {prev["pr"]} and PR {n} were both merged on the strength of tests against '
                             f'{BRANCH}@{prev["target_before"]}',
                         ))
@@ -480,7 +491,7 @@ class _Resp:
         self.status = 200
 
     async def json(self):
-        return copy.deepcopy(self._body)
+        return self._body  # always a freshly built structure
 
 
 class FakeSession:
@@ -658,13 +669,13 @@ class _Request(dict):
 
 
 class Sys:
-    def __init__(self, enforce=False):
+    def __init__(self, enforce=False, cfg=None):
         install_seams()
         import ci.constants as cconst
         import ci.github as g
         from hailtop.batch_client.aioclient import BatchClient
 
-        w = World(enforce)
+        w = World(enforce, cfg)
         w.author = cconst.AUTHORIZED_USERS[0].gh_username
         w.dnm_label = g.WIP
         if g.WIP not in g.DO_NOT_MERGE:
@@ -684,20 +695,20 @@ class Sys:
     def enabled(self):
         w = self.world
         ev = []
-        for n in PR_NUMBERS:
+        for n in w.cfg['prs']:
             p = w.prs[n]
             if p['state'] != 'open':
                 continue
             ev.append(('push', n))
             for c, full in REVIEW_CODES.items():
-                if p['review'] != full:
+                if p['review'] != full and c in w.cfg['reviews']:
                     ev.append(('review', n, c))
             ev.append(('label', n, 0 if w.dnm_label in p['labels'] else 1))
             cur = w.statuses.get(p['head'], {}).get(EXT_CONTEXT)
             for c, full in STATUS_CODES.items():
-                if cur != full:
+                if cur != full and c in w.cfg['ext']:
                     ev.append(('ext', n, c))
-        if w.ext_moves < MAX_TARGET_MOVES:
+        if w.ext_moves < w.cfg['target_moves']:
             ev.append(('target',))
         for b in w.batches:
             if b['state'] == 'running':
@@ -797,16 +808,7 @@ class Sys:
             if b['callback']:
                 w.callbacks.append(b['id'])
         elif kind == 'hook':
-            w.hooks.remove((ev[1], ev[2]))
-            if ev[1] == 'push':
-                data = {'ref': f'refs/heads/{BRANCH}', 'after': w.target, 'repository': w.repo_json()}
-            else:
-                n = ev[2] or min([k for k, p in w.prs.items() if p['state'] == 'open'] or [PR_NUMBERS[0]])
-                data = {'action': 'x', 'number': n, 'pull_request': w.pr_json(n)}
-            event = sansio.Event(data, event=ev[1], delivery_id='d')
-            event.app = self.app()
-            w.count(f'webhooks_{ev[1]}')
-            self._run_ci(c.gh_router.dispatch(event))
+            self._deliver_hook((ev[1], ev[2]))
         elif kind == 'callback':
             bid = w.callbacks.pop(0)
             b = next(b for b in w.batches if b['id'] == bid)
@@ -820,7 +822,32 @@ class Sys:
             self._run_ci(self.wb.update(self.db, self.batch_client, self.gh, False))
         else:
             raise HarnessError(f'unknown event {ev}')
+        if w.cfg['prompt_hooks']:
+            # GitHub webhooks arrive at once: part of the same atomic transition (also those caused by a merge)
+            for _ in range(20):
+                if not w.hooks:
+                    break
+                self._deliver_hook(w.hooks[0])
+            else:
+                raise HarnessError('webhook deliveries do not settle')
         return list(w.violations), dict(w.counters), list(w.merged_now)
+
+    def _deliver_hook(self, hook):
+        import ci.ci as c
+        from gidgethub import sansio
+
+        w = self.world
+        kind, num = hook
+        w.hooks.remove(hook)
+        if kind == 'push':
+            data = {'ref': f'refs/heads/{BRANCH}', 'after': w.target, 'repository': w.repo_json()}
+        else:
+            n = num or min([k for k, p in w.prs.items() if p['state'] == 'open'] or [PR_NUMBERS[0]])
+            data = {'action': 'x', 'number': n, 'pull_request': w.pr_json(n)}
+        event = sansio.Event(data, event=kind, delivery_id='d')
+        event.app = self.app()
+        w.count(f'webhooks_{kind}')
+        self._run_ci(c.gh_router.dispatch(event))
 
     # -- canonical form --------------------------------------------------------------------
     def canon(self):
@@ -868,10 +895,71 @@ def _canon_obj(x, depth=0):
     raise HarnessError(f'canon: unexpected {type(x)}')
 
 
-def replay_history(history, enforce=False):
+_HOOK_CODES = {'pull_request': 'P', 'push': 'U', 'pull_request_review': 'R'}
+_HOOK_KINDS = {v: k for k, v in _HOOK_CODES.items()}
+
+
+def enc(ev):
+    """Compact, order-preserving-enough text form of an event (histories are ','-joined strings)."""
+    k = ev[0]
+    if k == 'push':
+        return f'p{ev[1]}'
+    if k == 'target':
+        return 'T'
+    if k == 'review':
+        return f'r{ev[1]}{ev[2]}'
+    if k == 'label':
+        return f'l{ev[1]}{ev[2]}'
+    if k == 'ext':
+        return f'e{ev[1]}{ev[2]}'
+    if k == 'batch':
+        return f'b{ev[1]}{ev[2]}'
+    if k == 'hook':
+        return f'h{_HOOK_CODES[ev[1]]}{ev[2]}'
+    if k == 'callback':
+        return 'c'
+    if k == 'tick':
+        return 't'
+    raise HarnessError(f'cannot encode {ev}')
+
+
+def dec(tok):
+    k, rest = tok[0], tok[1:]
+    if k == 'p':
+        return ('push', int(rest))
+    if k == 'T':
+        return ('target',)
+    if k == 'r':
+        return ('review', int(rest[:-1]), rest[-1])
+    if k == 'l':
+        return ('label', int(rest[0]), int(rest[1]))
+    if k == 'e':
+        return ('ext', int(rest[:-1]), rest[-1])
+    if k == 'b':
+        return ('batch', int(rest[:-1]), rest[-1])
+    if k == 'h':
+        return ('hook', _HOOK_KINDS[rest[0]], int(rest[1:]))
+    if k == 'c':
+        return ('callback',)
+    if k == 't':
+        return ('tick',)
+    raise HarnessError(f'cannot decode {tok!r}')
+
+
+def enc_history(events):
+    return ','.join(enc(tuple(e)) for e in events)
+
+
+def dec_history(text):
+    return [dec(t) for t in text.split(',') if t]
+
+
+def replay_history(history, enforce=False, cfg=None):
     """Fresh objects, then every event of the history.  Returns (sys, per-event results)."""
-    s = Sys(enforce)
+    s = Sys(enforce, cfg)
     results = []
+    if isinstance(history, str):
+        history = dec_history(history)
     for ev in history:
         results.append(s.apply(tuple(ev)))
     return s, results
